@@ -62,6 +62,8 @@ def _segment_rows(version, seg, ref):
             ok, why = False, 'structure is not the one of datatype %r' % (dt,)
         elif kind not in ('leaf', 'sequence'):
             ok, why = False, 'unknown content type %r' % (kind,)
+        if ok and tuple(card)[1] != 0 and lib(version).FIELDS.get(name) is not fref:     # (withdrawn rows reuse a neighbour's entry)
+            ok, why = False, 'row %s does not reference FIELDS[%s]' % (name, name)
         rows.append(FieldRow(seg, name, num, kind, dt, long_name, tuple(card), table, max_len, ok, why))
     return rows, ''
 
@@ -120,6 +122,8 @@ def components(version, datatype):
                 ok, why = False, 'leaf row with non-base datatype %r' % (dt,)
             elif kind == 'sequence' and dt in base:
                 ok, why = False, 'sequence row with base datatype'
+            if ok and tuple(card)[1] != 0 and L.DATATYPES.get(name) is not cref:
+                ok, why = False, 'row %s does not reference DATATYPES[%s]' % (name, name)
             rows.append(CompRow(datatype, name, num, kind, dt, long_name, tuple(card), ok, why))
         _cache[key] = rows
     return _cache[key]
@@ -133,14 +137,20 @@ def is_base(version, dt):
     return dt in base_datatypes(version)
 
 
-def _node(name, ref, card, cls, depth=0):
+_segref = {}
+
+
+def _node(name, ref, card, cls, depth=0, version=None):
     if cls == 'SEG':
-        return Node(name, 'SEG', tuple(card), (), None, ref is not None)
+        ok = ref is not None
+        if ok and version is not None and name != 'ANYHL7SEGMENT':
+            ok = lib(version).SEGMENTS.get(name) is ref       # the row must reference the segment it names
+        return Node(name, 'SEG', tuple(card), (), None, ok)
     ok = isinstance(ref, (tuple, list)) and len(ref) >= 2 and ref[0] in ('sequence', 'choice')
     children = []
     if ok:
         for c in ref[1]:
-            children.append(_node(c[0], c[1], c[2], c[3], depth + 1))
+            children.append(_node(c[0], c[1], c[2], c[3], depth + 1, version))
     return Node(name, 'GRP', tuple(card), tuple(children), ref[0] if ok else None, ok)
 
 
@@ -151,7 +161,7 @@ def messages(version):
         out = {}
         for name, ref in lib(version).MESSAGES.items():
             ok = isinstance(ref, (tuple, list)) and len(ref) >= 2 and ref[0] in ('sequence', 'choice')
-            children = tuple(_node(c[0], c[1], c[2], c[3]) for c in ref[1]) if ok else ()
+            children = tuple(_node(c[0], c[1], c[2], c[3], 0, version) for c in ref[1]) if ok else ()
             out[name] = Node(name, 'MSG', (1, 1), children, ref[0] if ok else None, ok)
         _cache[key] = out
     return _cache[key]
